@@ -16,8 +16,10 @@ RULE = ("K10: seeded histories with keys whose VALUES the reference knows (AES-1
         "DH (half of the peers chosen so that the shared secret has a leading zero octet), ECDH P-256, AES_ECB/CBC_ENCRYPT_DATA and the concatenations is read back and compared.")
 TRUSTED = ["Lean reference implementations (FIPS/NIST/RFC vectors: AES-128/192/256, SHA-1/224/256/384/512, HMAC, CMAC RFC 4493, CTR SP 800-38A F.5, GCM test cases 4 and 6, P-256 2G and nG)",
            "C++ harness p11drv (relay ops feed the token's earlier outputs back) + python generator"]
-ASSUMPTIONS = ["not recomputed (no reference here): DES/3DES, MD5, RSA-PSS, RSA-OAEP, RSA X.509 raw beyond the public operation, DSA, ECDSA on P-384/P-521, EdDSA, GOST - they are exercised for the "
-               "output-length protocol (C12) only", "key sizes: AES 128/192/256, RSA 1024, P-256",
+ASSUMPTIONS = ["round 2 added references for triple DES (ECB / CBC / CBC_PAD / CMAC; FIPS 46-3 example vector), MD5 and MD5-HMAC (RFC 1321 vectors), RSASSA-PSS verification (all five hashes, "
+               "and CKM_RSA_PKCS_PSS on a caller-made hash), RSA decryption of the token's PKCS#1 v1.5 / OAEP(SHA-1) / raw ciphertexts with the private exponent; every signing / digesting / "
+               "encrypting call is preceded at random by length queries and too-small buffers (they must leave the operation unchanged: the result is still the reference's)",
+               "not recomputed (no reference here): single DES (needs OpenSSL's legacy provider), DSA, ECDSA on P-384/P-521, EdDSA, GOST - they are exercised for the output-length protocol (C12) only", "key sizes: AES 128/192/256, RSA 1024, P-256",
                "tamper detection of unauthenticated modes (ECB/CBC/CTR) is not a property of those modes: for them only equality with the reference is checked"]
 
 
@@ -62,4 +64,4 @@ LEVEL_TEXT = ("Lean 4 theorems (lean/Shm/Props/C10.lean) about the reference, fo
 LEVEL_NOTE = ("Trusted: Lean kernel + standard axioms for the mode theorems; the reference implementations themselves are validated by standard vectors and by agreement with the library, "
               "not proved against a formal specification of AES/SHA; that a flipped bit makes verification fail is a cryptographic claim no theorem here makes - it is tested with "
               "one flipped bit per tampered input.")
-TECHNIQUE = "independent reference implementations in Lean recompute every operation (monitor in the model driver); Lean theorems for the block-cipher modes over abstract block functions"
+TECHNIQUE = "independent reference implementations in Lean recompute every operation (monitor in the model driver); Lean theorems for the block-cipher modes over abstract block functions, the Feistel inversion of DES for every round function, PKCS#1 framing"
